@@ -34,3 +34,9 @@ func SetAfterEncodeHook(f func(LossyRecon)) {
 	}
 	lossy.VerifAfterEncodeHook.Store(&f)
 }
+
+// RowSync is lossy.VerifRowSync.
+type RowSync = lossy.VerifRowSync
+
+// NewRowSync creates row-pipeline synchronisation state for n rows.
+func NewRowSync(n int) *RowSync { return lossy.VerifNewRowSync(n) }
